@@ -1261,3 +1261,170 @@ Section Run.
       + apply outs_ok_add_other; [assumption|]. intros n r fs ss is' Hn Ht. congruence.
   Qed.
 End Run.
+
+(** * From one node to a whole build *)
+Section RunAll.
+  Variables (L : list node) (rules : list rule) (src : list (name * stat)).
+  Hypothesis HG : wfG L rules src.
+
+  Let vis := visit L rules src.
+
+  Lemma run_inv new : forall b st,
+    binv L rules src st ->
+    (forall x, In x new -> find_node (nname x) L = Some x) ->
+    match LoadProofs.run bstate (bstate * failure) vis new (b, st) with
+    | inl (_, st') => binv L rules src st'
+    | inr (st', _) => cache_inv (b_out st') (b_cache st') /\
+                      fresh (b_out st') (b_cache st') (b_clock st')
+    end.
+  Proof.
+    induction new as [|x new IH]; intros b st Hinv Hnew; simpl; [assumption|].
+    pose proof (visit_inv L rules src HG x st Hinv (Hnew x (or_introl eq_refl))) as Hv.
+    fold vis in Hv. destruct (vis x st) as [st'|[st' e]]; [|assumption].
+    apply IH; [assumption|]. intros y Hy. apply Hnew. now right.
+  Qed.
+End RunAll.
+
+(** * Loading a world gives a well-formed configuration *)
+
+Lemma load_world_inv w ts L :
+  load_world w ts = LOk L ->
+  exists st, read_roots (graph_of w) [""] = Some st /\ r_errs st = [] /\
+             topo (r_nodes st) (src_kind (w_src w)) L /\
+             (forall t, In t ts -> has_node t L = true).
+Proof.
+  unfold load_world, load_nodes. intros H.
+  destruct (read_roots (graph_of w) [""]) as [st|] eqn:Hr; [|discriminate].
+  destruct (r_errs st) as [|e es] eqn:He; [|discriminate].
+  destruct (load_all_spec (r_nodes st) (src_kind (w_src w)) ts) as [s' [El [_ Hok]]].
+  rewrite El in H. destruct (l_errs s') as [|e es] eqn:Hes; [|discriminate].
+  injection H as <-. exists st. destruct (Hok eq_refl) as [Ht Hin]. auto.
+Qed.
+
+(** the nodes a rule declares *)
+Lemma file_nodes_In n ds :
+  In n (file_nodes ds) <->
+  exists nm deps outs, In (DRule nm deps outs) ds /\
+    (n = mkNode nm TRule deps \/ exists o, In o outs /\ n = mkNode o TOut [nm]).
+Proof.
+  unfold file_nodes. rewrite in_flat_map. split.
+  - intros [d [Hd Hn]]. destruct d as [nm deps outs| |]; try destruct Hn.
+    + exists nm, deps, outs. split; [assumption|]. now left.
+    + exists nm, deps, outs. split; [assumption|]. right.
+      apply in_map_iff in H. destruct H as [o [<- Ho]]. eauto.
+  - intros (nm & deps & outs & Hd & [->|[o [Ho ->]]]); exists (DRule nm deps outs); split; auto.
+    + now left.
+    + right. apply in_map_iff. eauto.
+Qed.
+
+Lemma find_rule_In k rules r : find_rule k rules = Some r -> In r rules.
+Proof.
+  induction rules as [|r' rules IH]; simpl; [discriminate|].
+  destruct (String.eqb k (r_name r')); [intros [= <-]; now left|intros H; right; auto].
+Qed.
+
+Lemma find_rule_first rules r :
+  In r rules -> exists r', find_rule (r_name r) rules = Some r' /\ r_name r' = r_name r.
+Proof.
+  induction rules as [|r0 rules IH]; intros H; [destruct H|]. simpl.
+  destruct (String.eqb_spec (r_name r) (r_name r0)) as [E|E]; [eauto|].
+  destruct H as [->|H]; [congruence|auto].
+Qed.
+
+(** The scope of the model, as a decidable predicate on a loaded world:
+    no file set lists an output file, and no rule or output is named like a
+    source file. *)
+Definition no_out_filesb (L : list node) (fl : list name) : bool :=
+  forallb (fun f => match find_node f L with
+                    | Some n => match ntype n with TOut => false | _ => true end
+                    | None => true
+                    end) fl.
+
+Definition scopeb (L : list node) (rules : list rule) (src : list (name * stat)) : bool :=
+  forallb (fun r => match r_kind r with
+                    | KFileSet files sels incs =>
+                        match expand_files (map fst src) files sels with
+                        | Some fl => no_out_filesb L fl
+                        | None => true
+                        end
+                    | KBundle _ => true
+                    end) rules &&
+  forallb (fun n => match ntype n with
+                    | TSrc => true
+                    | _ => match lookup (nname n) src with None => true | Some _ => false end
+                    end) L.
+
+Lemma file_errs_nil_no_bad ds e : file_errs ds = [] -> ~ In (DBad e) ds.
+Proof.
+  unfold file_errs. intros H Hin.
+  assert (Hi : In e (flat_map (fun d => match d with DBad e => [e] | _ => [] end) ds)).
+  { apply in_flat_map. exists (DBad e). split; [assumption|now left]. }
+  rewrite H in Hi. destruct Hi.
+Qed.
+
+Theorem load_world_wfG w ts L :
+  load_world w ts = LOk L -> scopeb L (w_rules w) (w_src w) = true ->
+  wfG L (w_rules w) (w_src w).
+Proof.
+  intros Hload Hscope.
+  destruct (load_world_inv w ts L Hload) as (st & Hr & He & Htopo & _).
+  destruct (read_roots_spec (graph_of w) [""] st Hr) as (Herr & Hok & _).
+  destruct (Hok He) as [Hnd Hin].
+  set (names := map fst (w_src w)) in *.
+  set (decls := map (decl_of_rule names) (w_rules w)).
+  assert (Hreach : reached (graph_of w) [""] "").
+  { exists "". split; [now left|apply rt_refl]. }
+  assert (Hfn : fnodes (graph_of w) "" = file_nodes decls) by reflexivity.
+  assert (Hgood : file_errs decls = []).
+  { destruct (file_errs decls) as [|e es] eqn:E; [reflexivity|]. exfalso.
+    assert (Hp : read_problem (graph_of w) [""]).
+    { left. exists "". split; [assumption|]. unfold good_file. simpl. fold names. fold decls.
+      rewrite E. discriminate. }
+    apply Herr in Hp. contradiction. }
+  assert (Hreg : forall n, In n (file_nodes decls) -> find_node (nname n) (r_nodes st) = Some n).
+  { intros n Hn. apply find_node_NoDup; [assumption|]. apply Hin. exists "". now rewrite Hfn. }
+  apply andb_true_iff in Hscope. destruct Hscope as [Hs1 Hs2].
+  rewrite forallb_forall in Hs1, Hs2.
+  constructor.
+  - eapply topo_wf; eauto.
+  - (* rule nodes come from the rules *)
+    intros n HnL Hty.
+    destruct (topo_In _ _ _ Htopo n HnL) as [Hf|(_ & _ & _ & Hs)]; [|rewrite Hs in Hty; discriminate].
+    assert (Hn : In n (file_nodes decls)).
+    { apply find_node_Some in Hf. destruct Hf as [Hn _]. apply Hin in Hn.
+      destruct Hn as [q [_ Hq]]. unfold fnodes in Hq. simpl in Hq.
+      destruct (String.eqb q ""); [exact Hq|destruct Hq]. }
+    apply file_nodes_In in Hn. destruct Hn as (nm & deps & outs & Hd & [->|[o [_ ->]]]);
+      [|discriminate].
+    unfold decls in Hd. apply in_map_iff in Hd. destruct Hd as [r [Hdr Hr']].
+    (* the rule find_rule returns declares the same node *)
+    assert (Enm : nm = r_name r).
+    { unfold decl_of_rule in Hdr. destruct (r_kind r).
+      - destruct (expand_files names files sels); [|discriminate]. now injection Hdr as <- _ _.
+      - now injection Hdr as <- _ _. }
+    subst nm. destruct (find_rule_first _ _ Hr') as [r' [Hfr Enm]].
+    exists r'. simpl. split; [exact Hfr|].
+    pose proof (find_rule_In _ _ _ Hfr) as Hr'in.
+    assert (Hd' : In (decl_of_rule names r') decls) by (unfold decls; now apply in_map).
+    assert (Hnode : forall deps' outs', decl_of_rule names r' = DRule (r_name r') deps' outs' ->
+                                        deps' = deps).
+    { intros deps' outs' E. rewrite E in Hd'.
+      assert (Hn' : In (mkNode (r_name r') TRule deps') (file_nodes decls)).
+      { apply file_nodes_In. exists (r_name r'), deps', outs'. split; [assumption|now left]. }
+      assert (Hn0 : In (mkNode (r_name r) TRule deps) (file_nodes decls)).
+      { apply file_nodes_In. exists (r_name r), deps, outs. split; [|now left].
+        unfold decls. apply in_map_iff. eauto. }
+      pose proof (Hreg _ Hn') as H1. pose proof (Hreg _ Hn0) as H2. simpl in H1, H2.
+      rewrite Enm in H1. rewrite H1 in H2. now injection H2. }
+    unfold decl_of_rule in Hnode, Hd'. destruct (r_kind r') as [files sels incs|ds].
+    + destruct (expand_files names files sels) as [fl|] eqn:Hex.
+      * exists fl. split; [exact Hex|]. symmetry. eapply Hnode. reflexivity.
+      * exfalso. eapply file_errs_nil_no_bad; eauto.
+    + symmetry. eapply Hnode. reflexivity.
+  - intros nm r files sels incs fl Hfr Hk Hex f n Hf Hn Hty.
+    specialize (Hs1 r (find_rule_In _ _ _ Hfr)). rewrite Hk in Hs1.
+    unfold names in *. rewrite Hex in Hs1. unfold no_out_filesb in Hs1. rewrite forallb_forall in Hs1.
+    specialize (Hs1 f Hf). rewrite Hn, Hty in Hs1. discriminate.
+  - intros n HnL Hty. specialize (Hs2 n HnL).
+    destruct (ntype n); [congruence| |]; destruct (lookup (nname n) (w_src w)); congruence.
+Qed.
